@@ -182,6 +182,15 @@ ensure_operator = ensure_operation
 prevent_operator = prevent_operation
 
 
+def _find_literal_uses(root, literal):
+    """ Matches of the literal whose value also has the literal's own type
+    (the matcher compares with ``==``, so ``1`` would also find ``True`` and ``1.0``). """
+    uses = root.find_matches(repr(literal))
+    return [use for use in uses
+            if use.match_root.ast_name != "Constant"
+            or type(use.match_root.value) is type(literal)]
+
+
 class prevent_literal(PreventAssertionFeedback):
     """ Make sure that the given literal value does not appear in the student's
     code. """
@@ -199,7 +208,7 @@ class prevent_literal(PreventAssertionFeedback):
 
     def condition(self):
         literal = self.fields['literal']
-        uses = self.fields['root'].find_matches(repr(literal))
+        uses = _find_literal_uses(self.fields['root'], literal)
         if uses:
             self.update_location(uses[-1].match_location(False))
         return self._check_usage('use_count', uses)
@@ -221,7 +230,7 @@ class ensure_literal(EnsureAssertionFeedback):
 
     def condition(self):
         literal = self.fields['literal']
-        uses = self.fields['root'].find_matches(repr(literal))
+        uses = _find_literal_uses(self.fields['root'], literal)
         if uses:
             self.update_location(uses[-1].match_location(False))
         return self._check_usage('use_count', uses)
@@ -248,7 +257,8 @@ class prevent_literal_type(PreventAssertionFeedback):
         if literal_type == bool:
             uses = (self.fields['root'].find_matches("False") +
                     self.fields['root'].find_matches("True"))
-            uses = [match.match_root for match in uses]
+            uses = [match.match_root for match in uses
+                    if isinstance(match.match_root.value, bool)]
         elif literal_type == str:
             uses = self.fields['root'].find_all("Str")
         elif literal_type in (int, float):
@@ -284,7 +294,8 @@ class ensure_literal_type(EnsureAssertionFeedback):
         if literal_type == bool:
             uses = (self.fields['root'].find_matches("False")+
                     self.fields['root'].find_matches("True"))
-            uses = [match.match_root for match in uses]
+            uses = [match.match_root for match in uses
+                    if isinstance(match.match_root.value, bool)]
         elif literal_type == str:
             uses = self.fields['root'].find_all("Str")
         elif literal_type in (int, float):
